@@ -9,7 +9,31 @@
    sinv input s = stream_inv input (fst s) (snd s): input = consumed prefix ++ window ++ unread.
    st_okf s d pos c = C08's st_ok without the no_fail clause: pending data d, position pos, capacity c.
    Proof route: fault erasure; the faulty state and its twin run in lock step through every
-   iteration of the step loops until the faulty one returns E_Io; C08 applies to the twin. *)
+   iteration of the step loops until the faulty one returns E_Io; C08 applies to the twin.
+
+   Proved (every statement for EVERY schedule):
+     * C20_bin_next_fault_sound / _read_ / _read_bytes_ / _skip_container_fault_sound: one call =
+       Err E_Io with an intact stream view and a position inside the input, or exactly the twin's
+       outcome (token, None, ANY error incl. BufferFull) with twin successor states.  No buffer-size
+       hypothesis.
+     * C20_bin_next_fault_lexer: with C08's hypotheses minus no_fail, next() = Err E_Io from a
+       state with the same pending data / position / capacity, or the slice lexer's next_token.
+     * C20_bin_run_prefix / C20_bin_stream_lockstep / C20_bin_stream_fault_prefix /
+       C20_bin_stream_fault_exact: a run is the twin's run (= run_lexer when the buffer fits), or a
+       prefix of its tokens followed by (Err E_Io, p), p inside the input; with a fitting buffer p
+       is exactly the slice lexer's cursor after the returned tokens.
+     * C20_bin_persistent_errors_call / _run_end / _run / C20_bin_stream_fail_first: while the Read
+       is failing no call reports a clean end, LexEof or a crash; tokens come from the buffer
+       without touching the Read; the run ends with E_Io (or BufferFull / InvalidRgb decided from
+       buffered bytes alone).
+     * C20_bin_position_le_delivered / _position_new / _delivered_exact: position + buffered =
+       delivered is kept by every operation into whatever state it returns.
+     * C20_bin_next_retry / C20_bin_read_bytes_retry_position: next() and read_bytes() are resumable
+       after E_Io at every position (nothing is consumed before the result is complete).
+     * C20_bin_skip_container_fault_lands: skip_container lands where token counting lands, or
+       reports E_Io from inside the pending data.
+   Not claimed / finding: skip_container is NOT resumable after E_Io (the nesting depth is lost):
+   C20_bin_ex_finding_skip_container_retry. *)
 From JV Require Import Bytes Tables BinPrim BufWin BinLexer BinReader.
 From JV.proofs Require Import BinLexProofs BufWinProofs BinStreamProofs FaultProofs FaultBinProofs.
 From Coq Require Import List NArith ZArith.
@@ -333,3 +357,33 @@ Example C20_bin_ex_finding_skip_container_retry :
   fst (rdr_skip_container (snd r1)) = Ok tt /\ rdr_position (snd (rdr_skip_container (snd r1))) = 4 /\
   rdr_position (snd (rdr_skip_container (rdr_new 16 [Data 2; Data 10] exn_body))) = 6.
 Proof. cbv zeta. repeat split; vm_compute; reflexivity. Qed.
+
+(* ---------- the run against the slice lexer with the exact error position ---------- *)
+(* lx_position l' is the slice lexer's cursor after the tokens [pre]: the lexer's own run is [pre]
+   followed by its run from l' *)
+Theorem C20_bin_run_fault_exact : forall fuel s l c,
+  st_okf s (lx_data l) (lx_position l) c -> length (lx_data l) <= lx_orig l ->
+  fits_fuel fuel c (lx_data l) = true ->
+  stream_run fuel s = lex_run fuel l \/
+  exists pre l', stream_run fuel s = (pre, (Err E_Io, lx_position l')) /\
+                 lx_orig l' = lx_orig l /\ length (lx_data l') <= lx_orig l' /\
+                 lex_run fuel l = (pre ++ fst (lex_run (fuel - length pre) l'),
+                                   snd (lex_run (fuel - length pre) l')).
+Proof. exact stream_run_fault_lexer. Qed.
+Print Assumptions C20_bin_run_fault_exact.
+
+Theorem C20_bin_stream_fault_exact : forall input sch capv, fits capv input = true ->
+  run_stream capv sch input = run_lexer input \/
+  exists pre l', run_stream capv sch input = (pre, (Err E_Io, lx_position l')) /\
+                 lx_orig l' = length input /\ length (lx_data l') <= length input /\
+                 run_lexer input = (pre ++ fst (lex_run (S (length input) - length pre) l'),
+                                    snd (lex_run (S (length input) - length pre) l')).
+Proof. exact run_stream_fault_lexer. Qed.
+Print Assumptions C20_bin_stream_fault_exact.
+
+(* in C20_bin_ex_run the error position 2 is the lexer's cursor after [BId 10285] *)
+Example C20_bin_ex_run_exact :
+  let l' := mklx (skipn 2 exb_input) 10 in
+  run_stream 16 exb_sched exb_input = ([BId 10285%N], (Err E_Io, lx_position l')) /\
+  run_lexer exb_input = ([BId 10285%N] ++ fst (lex_run 10 l'), snd (lex_run 10 l')).
+Proof. cbv zeta. split; vm_compute; reflexivity. Qed.
